@@ -24,7 +24,7 @@ func init() {
 	register(&Rule{ID: "R-RECOVER", Floor: 3, Run: ruleRecover,
 		Text: "Execute runs the machine under a deferred recover that sets both results; Run does nothing after Execute that can panic except calling True() on a non-nil object."})
 	register(&Rule{ID: "R-RECURSION", Floor: 5, Run: ruleRecursion,
-		Text: "Every recursive component of the library call graph reachable from Prepare, Execute, Run or Dump contains a depth guard (a counter compared with a bound on a path that returns before recursing): a Go stack overflow is fatal and cannot be recovered."})
+		Text: "Every recursive component of the library call graph reachable from Prepare, Execute, Run or Dump is bounded: by a depth counter (incremented, compared with a constant, the other side returning without recursing) such that every cycle of the component takes a call that lies behind such a test; by a depth parameter handed on and increased along every cycle and compared with a constant; by a set of the host values on the current path (tested, inserted, removed by a deferred delete) that every cycle passes; or by being structural recursion over a syntax tree, which the parser bounds.  A Go stack overflow is fatal and cannot be recovered."})
 	register(&Rule{ID: "R-IDENTITY", Floor: 1, Run: ruleIdentity,
 		Text: "No ==, != or tagged switch compares two object values by identity: booleans and nulls are allocated afresh by reflection, built-ins and the host API, so identity with the VM's singletons does not mean equality."})
 	register(&Rule{ID: "R-LOGICDISPATCH", Floor: 2, Run: ruleLogicDispatch,
@@ -40,7 +40,7 @@ func init() {
 	register(&Rule{ID: "R-POLL", Floor: 4, Run: rulePoll,
 		Text: "The interpreter polls the context with a non-blocking select on every cycle of its dispatch loop and before the first instruction; the ready branch returns a non-nil error; every inner loop is bounded by a 16-bit operand or the length of an existing container (the range constructor is the stated exclusion); instruction execution is re-entered only through the interpreter itself."})
 	register(&Rule{ID: "R-CTXFLOW", Floor: 4, Run: ruleCtxFlow,
-		Text: "The context travels SetContext → Prepare → VM: Eval.context is written only by the constructor and SetContext, every successful Prepare hands it to the machine it just built, and VM.context is written only by the VM's SetContext."})
+		Text: "The context travels SetContext → Prepare → VM: Eval.context is written only by the constructor and SetContext, every successful Prepare hands it to the machine it just built, and VM.context is written only by the VM's SetContext.  Every context the evaluator installs in the machine is its own (the host's) or derived from it by context.With…, and a derived one is taken back by a deferred call."})
 }
 
 // ---------------------------------------------------------------------------
